@@ -674,3 +674,50 @@ package s3db
 //@   loop 1 invariant forall i int :: imp(!c.desc && old(posOf(c)) <= i && i < posOf(c), skipOKasc(c, snapOf(c), i, old(c.gtMin)))
 //@   loop 1 invariant forall i int :: imp(c.desc && posOf(c) < i && i <= old(posOf(c)), skipOKdesc(c, snapOf(c), i, old(c.ltMax)))
 //@   loop 1 decreases ite(c.desc, posOf(c) + 2, seqN(snapOf(c)) - posOf(c) + 1)
+
+// sortedAt: the snapshot's keys are strictly increasing (mast invariant given
+// a total key order, C07)
+//@ spec sortedAt(s int, i int, j int) bool = imp(0 <= i && i < j && j < seqN(s), kcmp(kAt(s, i), kAt(s, j)) < 0)
+
+// BestIndex (core): exactly the usable comparisons on the key column are
+// used; any ORDER BY is acceptable (more than one term, or a term on another
+// column, only means SQLite sorts itself); never an error.
+//@ func (*VirtualTable).BestIndex
+//@   requires c != nil && c.Tree != nil && c.Tree.Root != nil && dbOK(c.Tree.Root)
+//@   modifies nothing
+//@   ensures never-fails: err == nil && result0 != nil && fresh(result0)
+//@   ensures used-len: len(result0.Used) == len(input)
+//@   ensures used: forall j int :: imp(0 <= j && j < len(input), result0.Used[j] == (input[j].Op != OpIgnore && input[j].ColumnIndex == c.KeyCol))
+//@   ensures ordered: imp(result0.AlreadyOrdered, len(order) <= 1 && imp(len(order) == 1, order[0].Column == c.KeyCol))
+//@   ensures prefix: len(result0.IdxStr) >= 5 && (result0.IdxStr[:5] == "desc " || result0.IdxStr[:5] == "asc  ")
+//@   ensures direction: imp(len(order) >= 1, (result0.IdxStr[:5] == "desc ") == order[0].Desc) && imp(len(order) == 0, result0.IdxStr[:5] == "asc  ")
+//@   loop 1 invariant -1 <= rangeindex && rangeindex < len(input) && out != nil && fresh(out) && len(out.Used) == len(input) && fresh(out.Used)
+//@   loop 1 invariant forall j int :: imp(0 <= j && j <= rangeindex, out.Used[j] == (input[j].Op != OpIgnore && input[j].ColumnIndex == c.KeyCol))
+//@   loop 1 invariant forall j int :: imp(rangeindex < j && j < len(input), !out.Used[j])
+//@   loop 1 modifies contents(out.Used), out.IdxStr, out.EstimatedCost
+//@   loop 2 invariant -1 <= rangeindex && rangeindex < len(order) && out != nil && fresh(out) && len(out.Used) == len(input)
+//@   loop 2 invariant forall j int :: imp(0 <= j && j < len(input), out.Used[j] == (input[j].Op != OpIgnore && input[j].ColumnIndex == c.KeyCol))
+//@   loop 2 invariant imp(out.AlreadyOrdered, rangeindex + 1 <= 1 && imp(rangeindex + 1 == 1, order[0].Column == c.KeyCol))
+//@   loop 2 invariant imp(rangeindex >= 0, desc != nil && *desc == order[0].Desc) && imp(rangeindex < 0, desc == nil)
+//@   loop 2 modifies out.AlreadyOrdered
+
+// Filter: parse the plan produced by BestIndex, seek, and deliver the first
+// row. Safe for every operand (NULL included) and every tree (empty
+// included); the scan starts at a position before which (in scan order)
+// no key of the window lies.
+//@ func (*Cursor).Filter
+//@   requires c != nil && c.t != nil && vtOK(c.t) && ctx != nil
+//@   requires len(idxStr) >= 5 && (idxStr[:4] == "desc" || idxStr[:4] == "asc ")
+//@   requires nParts(idxStr[5:]) <= len(val) || (nParts(idxStr[5:]) == 1 && partOf(idxStr[5:], 0) == "")    // one argument per op code (BestIndex protocol)
+//@   requires forall j int :: imp(0 <= j && j < len(val), sqlTyped(val[j]) && imp(typeis(val[j], float64), !isnan(val[j].(float64))))
+//@   requires forall i int :: entryShape(*c.t.Tree.Root.crdt.Mast, i)
+//@   requires forall i int, j int :: sortedAt(*c.t.Tree.Root.crdt.Mast, i, j)
+//@   modifies c.ops, c.operands, c.desc, c.max, c.min, c.ltMax, c.gtMin, c.cursor, c.currentKey, c.currentRow, c.eof
+//@   at call:s3db.(*Cursor).Next assert asc-start: forall i int :: imp(!c.desc && 0 <= i && i < posOf(c), !aboveMin(c, kAt(snapOf(c), i), false))
+//@   at call:s3db.(*Cursor).Next assert desc-start: forall i int :: imp(c.desc && c.max != nil && posOf(c) < i && i < seqN(snapOf(c)), kcmp(kAt(snapOf(c), i), c.max) >= 0)
+//@   at call:s3db.(*Cursor).Next assert desc-start-unbounded: imp(c.desc && c.max == nil, posOf(c) == seqN(snapOf(c)) - 1)
+//@   at call:s3db.(*Cursor).Next assert desc-start-valid: imp(c.desc, posOf(c) < seqN(snapOf(c)))
+//@   at call:s3db.(*Cursor).Next assert snapshot: snapOf(c) == *c.t.Tree.Root.crdt.Mast
+//@   ensures error-or-positioned: imp(result == nil, c.eof || (c.currentKey != nil && c.currentRow != nil))
+//@   loop 1 modifies contents(c.ops), contents(c.operands), c.max, c.min, c.ltMax, c.gtMin
+//@   loop 1 invariant -1 <= rangeindex && rangeindex < nParts(idxStr[5:]) && len(c.ops) == len(val) && len(c.operands) == len(val) && fresh(c.ops) && fresh(c.operands) && imp(c.max != nil, keyOK(c.max)) && imp(c.min != nil, keyOK(c.min))
